@@ -3,6 +3,7 @@ package harness
 import (
 	"bytes"
 	"fmt"
+	ae "github.com/godaddy/asherah/go/appencryption"
 	"io"
 	"strings"
 	"time"
@@ -570,4 +571,85 @@ func c12SchedReplayBody(h string) explore.Body {
 		}
 	}
 	return nil
+}
+
+// ---------------------------------------------------------------------------------
+// C10 over the real secret factories: the buffer handed to SecretFactory.New is the caller's plaintext copy of a key and
+// is wiped by the factory (both implementations, shadow page table); and an encrypt + cold decrypt through the SDK with
+// the real factories leaves no unwrapped key readable in the buffers the KMS / AEAD handed out.
+// ---------------------------------------------------------------------------------
+
+func c10RealFactories(r *Report) {
+	n := 0
+	bad := func(sig, impl, format string, a ...interface{}) {
+		r.Viols = append(r.Viols, Viol{Property: "C10", Harness: "C10/real-factories", Sig: sig + "@" + impl, Msg: fmt.Sprintf(format, a...), Ops: []string{impl}})
+	}
+	for _, impl := range []string{"protected", "memguard"} {
+		for _, size := range []int{1, 32, 4097} {
+			mc := doubles.NewShadowMemcall()
+			f := c12Factory(impl, mc)
+			src := make([]byte, size)
+			for i := range src {
+				src[i] = byte(i%251 + 1)
+			}
+			sec, err := f.New(src)
+			n++
+			if err != nil {
+				bad("factory-new-failed", impl, "New(%d bytes) failed without fault: %v", size, err)
+				continue
+			}
+			if !allZero(src) {
+				bad("secret-source-not-wiped-by-factory", impl, "%s factory: the %d-byte buffer handed to New still holds the key after New returned", impl, size)
+			}
+			sec.Close()
+		}
+		// through the SDK
+		resetGlobals()
+		mc := doubles.NewShadowMemcall()
+		f := c12Factory(impl, mc)
+		ms, kms := doubles.NewSpyMetastore(), doubles.NewSpyKMS()
+		mk := func() (*ae.SessionFactory, *doubles.SpyAEAD) {
+			a := doubles.NewSpyAEAD(nil)
+			return ae.NewSessionFactory(&ae.Config{Service: "s", Product: "p", Policy: SpecDefault.Build()}, ms, kms, a, ae.WithSecretFactory(f)), a
+		}
+		f1, _ := mk()
+		s1, _ := f1.GetSession("A")
+		pay := []byte("payload-for-the-real-factories")
+		rec, err := s1.Encrypt(ctx, append([]byte(nil), pay...))
+		n++
+		if err != nil {
+			bad("encrypt-failed", impl, "encrypt over the real %s factory failed: %v", impl, err)
+			continue
+		}
+		f2, a2 := mk()
+		s2, _ := f2.GetSession("A")
+		kmsFrom := len(kms.Returned)
+		out, err := s2.Decrypt(ctx, *cloneDRR(rec))
+		n++
+		if err != nil || !bytes.Equal(out, pay) {
+			bad("decrypt-failed", impl, "cold decrypt over the real %s factory failed: %v", impl, err)
+		}
+		for i, b := range kms.Returned[kmsFrom:] {
+			if !allZero(b) {
+				bad("kms-plaintext-not-wiped", impl, "the plaintext system key returned by KMS.DecryptKey (call %d) is still readable after Decrypt returned (real %s factory)", kmsFrom+i, impl)
+			}
+		}
+		for i, b := range a2.Returned {
+			if len(b) == 0 || bytes.Equal(b, pay) {
+				continue
+			}
+			if !allZero(b) {
+				bad("unwrapped-key-not-wiped", impl, "plaintext key returned by AEAD.Decrypt (unwrap %d, %d bytes) is still readable after Decrypt returned (real %s factory)", i, len(b), impl)
+			}
+		}
+		s1.Close()
+		s2.Close()
+		f1.Close()
+		f2.Close()
+	}
+	r.Runs = append(r.Runs, RunInfo{Name: "C10/real-factories", Executions: n, States: n, Transitions: int64(n), Exhaustive: true,
+		Bound: "both secret factories over the shadow page table: New(1 / 32 / 4097 bytes) wipes its source; encrypt + cold decrypt through the SDK"})
+	r.Evaluations += n
+	r.TracesValidated += n
+	r.Transitions += int64(n)
 }
